@@ -95,7 +95,16 @@ pub fn run(rec: &mut Recorder, w: &mut World, tier: &str, seed: u64) {
                     m.tbl.extend(extra);
                 }
                 new_enforcer(rec, w, &m, "memory", &lines_of(&format!("p{}", sfx), &ctx_rules, &k.g, &links), "", false);
-                let ctx = rec.exec(w, &format!("e.enfcs\t{}\t{}", sfx, reqf));
+                let mut ctx = rec.exec(w, &format!("e.enfcs\t{}\t{}", sfx, reqf));
+                // on the cached runs enforcement is then switched off, the requests asked again (all granted), and switched on:
+                // the context answers must be the plain ones again
+                if cached && it % 8 == 7 {
+                    rec.exec(w, "e.auto\tenforce\tfalse");
+                    let _ = rec.exec(w, &format!("e.enfcs\t{}\t{}", sfx, reqf));
+                    rec.exec(w, "e.auto\tenforce\ttrue");
+                    ctx = rec.exec(w, &format!("e.enfcs\t{}\t{}", sfx, reqf));
+                    rec.count("enforcer:cached-enable-window");
+                }
                 if cached { rec.exec(w, "e.cached\tfalse"); }
                 if plain != ctx {
                     let i = plain.bytes().zip(ctx.bytes()).position(|(x, y)| x != y).unwrap_or(0);
